@@ -300,6 +300,17 @@ def _text_rules(ctx, md):
     fn, pv = md.fn, md.pv
     res = ("local", md.result_local, fn.local_name(md.result_local))
     found = {}
+    # the value this entry stores into content_type (Some(T) or T): the rules may be checked on it before it is stored
+    stored = []
+    for cls, effs in md.table.items():
+        if md.class_name(cls) != "3":
+            continue
+        for f, e in effs:
+            if f == "content_type" and e["kind"] == "assign":
+                v = e["value"]
+                if v[0] == "aggr" and v[1] == "core::option::Option" and v[2] == "Some" and v[3]:
+                    v = v[3][0][1]
+                stored.append(v)
     for cname, key, o in md.reject_sites():
         if cname != "3" or not key.startswith("err:"):
             continue
@@ -324,6 +335,8 @@ def _text_rules(ctx, md):
             inner = x[1][1]
             while inner[0] in ("ref", "deref"):
                 inner = inner[1]
+            if inner in stored:
+                return True          # the very value that is stored for this entry
             if not (inner[0] == "field" and inner[2] == "0" and inner[1][0] == "variant" and inner[1][2] == "Some"):
                 return False
             src = inner[1][1]
